@@ -31,15 +31,16 @@ Definition pred_part (d : dview) : list wrapper := match r_preds (d_reg d) with 
 Definition sec_part (d : dview) : list wrapper := match d_perm d with Some p => [WSecured p] | None => [] end.
 Definition ow_part (d : dview) : list wrapper := match d_wrapper d with [] => [] | n => [WOWrapped n] end.
 Definition deco_part (d : dview) : list wrapper := if d_deco d then [WDeco] else [].
+Definition csrf_part (d : dview) : list wrapper := if d_csrf d then [WCsrf] else [].
 
-(* predicates first, then the permission check, then the wrapper view, then the decorator, then the callable *)
-Lemma wrappers_shape d : wrappers d = pred_part d ++ sec_part d ++ ow_part d ++ deco_part d.
+(* predicates first, then the permission check, then the CSRF check, then the wrapper view, then the decorator, then the callable *)
+Lemma wrappers_shape d : wrappers d = pred_part d ++ sec_part d ++ csrf_part d ++ ow_part d ++ deco_part d.
 Proof.
   unfold wrappers. rewrite deriver_names_eq.
-  unfold pred_part, sec_part, ow_part, deco_part.
+  unfold pred_part, sec_part, ow_part, deco_part, csrf_part.
   cbn [flat_map].
   change (wrap_of d nm_attr_wrapped_view) with (@nil wrapper).
-  change (wrap_of d nm_csrf_view) with (@nil wrapper).
+  change (wrap_of d nm_csrf_view) with (if d_csrf d then [WCsrf] else []).
   change (wrap_of d nm_http_cached_view) with (@nil wrapper).
   change (wrap_of d nm_rendered_view) with (@nil wrapper).
   change (wrap_of d nm_mapped_view) with (@nil wrapper).
@@ -119,7 +120,9 @@ Section Inv.
   (* --- mediation *)
   Definition head_ok (seen : trace) (e : event) : Prop :=
     match e with
-    | Body t c | Deco t c => forall d p, assocN t D = Some d -> d_perm d = Some p -> In (Permits p c true) seen
+    | Body t c | Deco t c =>
+        (exists d, assocN t D = Some d) /\
+        forall d p, assocN t D = Some d -> d_perm d = Some p -> In (Permits p c true) seen
     | _ => True
     end.
   Fixpoint guarded_from (seen tr : trace) : Prop :=
@@ -129,7 +132,7 @@ Section Inv.
     end.
 
   Lemma head_ok_weaken seen seen' e : (forall x, In x seen -> In x seen') -> head_ok seen e -> head_ok seen' e.
-  Proof. destruct e; simpl; auto; intros Hs H d p' Hd Hp; apply Hs; eauto. Qed.
+  Proof. destruct e; simpl; auto; intros Hs [Hk H]; (split; [exact Hk|]); intros d p' Hd Hp; apply Hs; eauto. Qed.
 
   Lemma guarded_weaken tr : forall seen seen',
     (forall x, In x seen -> In x seen') -> guarded_from seen tr -> guarded_from seen' tr.
@@ -155,7 +158,7 @@ Section Inv.
   Proof.
     induction tr as [|x r IH]; intros seen i e t c d p G Hn He Hd Hp; [destruct i; discriminate|].
     destruct G as [G1 G2]. destruct i as [|i]; simpl in Hn.
-    - inversion Hn; subst x. left. destruct He as [->| ->]; simpl in G1; eauto.
+    - inversion Hn; subst x. left. destruct He as [->| ->]; simpl in G1; destruct G1 as [_ G1]; eauto.
     - destruct (IH _ _ _ _ _ _ _ G2 Hn He Hd Hp) as [[Hx|Hin]|(j & Hj & Hnj)].
       + right. exists 0. split; [lia|]. simpl. rewrite Hx. reflexivity.
       + left. exact Hin.
@@ -304,7 +307,7 @@ Section Inv.
       - apply run_body_inv3. exact Hd.
       - assert (Hr : forall p, In (WSecured p) r -> d_perm d = Some p) by (intros p Hp; apply Hs; right; exact Hp).
         specialize (IH Hr).
-        destruct w as [|p|n|].
+        destruct w as [|p|n| |]; [| | | |destruct (q_csrf_ok q); [exact IH|apply inv3_nil; discriminate]].
         + destruct (qualifies (q_base q) (d_reg d)); [exact IH|]. apply inv3_nil. discriminate.
         + destruct (granted tb p c).
           * destruct (run_ws tb q lookup r d t c) as [tr o]. destruct IH as (A1 & A2 & A3). simpl in *.
@@ -343,7 +346,7 @@ Section Inv.
     Proof.
       intros Hd Hc. unfold run_body.
       assert (Hb : forall seen', (forall x, In x seen -> In x seen') -> head_ok seen' (Body t c)).
-      { intros seen' Hs d' p' Hd' Hp'. rewrite Hd in Hd'. inversion Hd'; subst d'. apply Hs. auto. }
+      { intros seen' Hs. split; [exists d; exact Hd|]. intros d' p' Hd' Hp'. rewrite Hd in Hd'. inversion Hd'; subst d'. apply Hs. auto. }
       destruct (d_body d) as [bh|[p|] bh]; simpl.
       - split; [apply (Hb seen); auto|exact I].
       - destruct (granted tb p c); simpl.
@@ -359,7 +362,7 @@ Section Inv.
     Proof.
       induction ws as [|w r IH]; intros seen Hd Hc; simpl.
       - apply body_trace_guarded; [exact Hd|]. intros p Hp. destruct (Hc p Hp) as [H|H]; [exact H|discriminate H].
-      - destruct w as [|p|n|].
+      - destruct w as [|p|n| |]; [| | | |destruct (q_csrf_ok q); [|exact I]; apply IH; [exact Hd|exact Hc]].
         + destruct (qualifies (q_base q) (d_reg d)); [|exact I]. apply IH; [exact Hd|]. exact Hc.
         + destruct (granted tb p c); [|simpl; split; exact I].
           specialize (IH (Permits p c true :: seen) Hd).
@@ -376,7 +379,7 @@ Section Inv.
           { intros p Hp. destruct (Hc p Hp) as [H|H]; [exact H|discriminate H]. }
           specialize (IH (Deco t c :: seen) Hd).
           destruct (run_ws tb q lookup r d t c) as [tr o]. simpl in *. split.
-          * intros d' p' Hd' Hp'. rewrite Hd in Hd'. inversion Hd'; subst d'. auto.
+          * split; [exists d; exact Hd|]. intros d' p' Hd' Hp'. rewrite Hd in Hd'. inversion Hd'; subst d'. auto.
           * apply IH. intros p Hp. left. right. auto.
     Qed.
 
@@ -388,10 +391,11 @@ Section Inv.
 
     Lemma wrappers_secured d p : In (WSecured p) (wrappers d) -> d_perm d = Some p.
     Proof.
-      rewrite wrappers_shape. unfold pred_part, sec_part, ow_part, deco_part. intros H.
+      rewrite wrappers_shape. unfold pred_part, sec_part, ow_part, deco_part, csrf_part. intros H.
       repeat (apply in_app_or in H; destruct H as [H|H]).
       - destruct (r_preds (d_reg d)); [destruct H|]. destruct H as [H|[]]; discriminate H.
       - destruct (d_perm d) as [p'|]; [|destruct H]. destruct H as [H|[]]. inversion H; reflexivity.
+      - destruct (d_csrf d); [|destruct H]. destruct H as [H|[]]; discriminate H.
       - destruct (d_wrapper d); [destruct H|]. destruct H as [H|[]]; discriminate H.
       - destruct (d_deco d); [|destruct H]. destruct H as [H|[]]; discriminate H.
     Qed.
@@ -480,6 +484,14 @@ Section Inv.
     - simpl. destruct o2 as [t2|e2| |]; try discriminate.
       + destruct e2; try discriminate; intros Hp; inversion Hp; auto.
       + intros Hp; inversion Hp; auto.
+  Qed.
+
+  Lemma router_guarded : guarded_from [] (fst (router_call R D tb q)).
+  Proof.
+    destruct router_split as (tr1 & o1 & _ & [G1 _] & Hr). simpl in G1.
+    destruct o1 as [t'|e'| |]; try (rewrite Hr; exact G1).
+    destruct Hr as (tr2 & o2 & _ & [G2 _] & Ht & _). rewrite Ht. simpl in G2.
+    apply guarded_app; [exact G1|]. apply guarded_raised. exact G2.
   Qed.
 
   (* mediation, positional form *)
